@@ -29,6 +29,9 @@
 // single-property object) chosen per session: a bare value that is not a map ("vs") is shorthand for
 // the object.  The unserialized value is again bound by an independent copy of the scope.
 //
+// "display":{step:shape} gives every step (and its signal) a display of that shape (none / name /
+// description / icon / all); no outcome may depend on it.
+//
 // For every session the property's own invariants are evaluated directly on the real
 // observations (judge); under replay the per-goroutine event sequences, ledger, outcomes and
 // initializer counts are also compared with the specification's (differences the property
@@ -98,6 +101,7 @@ type caseT struct {
 	NoInit   []string                  `json:"noinit"`
 	MapSteps []string                  `json:"mapsteps"`
 	Shorts   []string                  `json:"shortsteps"`
+	Display  map[string]string         `json:"display"`
 	Variants []int                     `json:"variants"`
 	Seed     int64                     `json:"seed"`
 	Sessions int                       `json:"sessions"`
@@ -1065,16 +1069,17 @@ type proc struct {
 type procKey struct{}
 
 type session struct {
-	mu     sync.Mutex
-	log    []*event
-	procs  []*proc // procs[0] is proc 1
-	byGoid map[int64]*proc
-	gated  bool
-	free   chan struct{}
-	arriv  chan *event // arrivals at gates and returns, replay mode
-	schema *schema.CallableSchema
-	anomal []string
-	shape  string // shape of the single-property scopes of this session
+	mu      sync.Mutex
+	log     []*event
+	procs   []*proc // procs[0] is proc 1
+	byGoid  map[int64]*proc
+	gated   bool
+	free    chan struct{}
+	arriv   chan *event // arrivals at gates and returns, replay mode
+	schema  *schema.CallableSchema
+	anomal  []string
+	shape   string            // shape of the single-property scopes of this session
+	display map[string]string // step -> display shape
 }
 
 func goid() int64 {
@@ -1088,8 +1093,8 @@ func goid() int64 {
 	return id
 }
 
-func newSession(calls []callT, gated bool, seed int64, variant int, variants []int) *session {
-	s := &session{byGoid: map[int64]*proc{}, gated: gated, free: make(chan struct{}), arriv: make(chan *event, 16*len(calls)+16)}
+func newSession(calls []callT, gated bool, seed int64, variant int, variants []int, display map[string]string) *session {
+	s := &session{display: display, byGoid: map[int64]*proc{}, gated: gated, free: make(chan struct{}), arriv: make(chan *event, 16*len(calls)+16)}
 	for i, c := range calls {
 		v := variant + i
 		if len(variants) == len(calls) && variants[i] >= 0 {
@@ -1116,13 +1121,33 @@ func newSession(calls []callT, gated bool, seed int64, variant int, variants []i
 	return s
 }
 
+// Steps.tla: DisplayShapes.  The display of a step (and of its signal) is documentation only.
+var displayShapes = []string{"none", "name", "description", "icon", "all"}
+
+func displayOf(shape, id string) schema.Display {
+	name, desc, icon := "Step "+id, "what "+id+" does", "<svg/>"
+	switch shape {
+	case "name":
+		return schema.NewDisplayValue(&name, nil, nil)
+	case "description":
+		return schema.NewDisplayValue(nil, &desc, nil)
+	case "icon":
+		return schema.NewDisplayValue(nil, nil, &icon)
+	case "all":
+		return schema.NewDisplayValue(&name, &desc, &icon)
+	}
+	return nil // no display at all (a nil interface, not a typed nil pointer)
+}
+
+func (s *session) disp(id string) schema.Display { return displayOf(s.display[id], id) }
+
 // buildShort builds a step without initializer (step data type any) whose input and signal data objects have
 // exactly one property; T is the type the shape unserializes to.
 func buildShort[T any](s *session, id string) schema.CallableStep {
-	sig := schema.NewCallableSignal[any, T](sigID, shortScope(s.shape, "sigdata"), nil,
+	sig := schema.NewCallableSignal[any, T](sigID, shortScope(s.shape, "sigdata"), s.disp(id),
 		func(ctx context.Context, d any, in T) { s.shortHandler(ctx, "signal", id, d, any(in)) })
 	return schema.NewCallableStepWithSignals[any, T](id, shortScope(s.shape, "input"), outputs(),
-		map[string]schema.CallableSignal{sigID: sig}, nil, nil, nil,
+		map[string]schema.CallableSignal{sigID: sig}, nil, s.disp(id), nil,
 		func(ctx context.Context, d any, in T) (string, any) {
 			return s.shortHandler(ctx, "step", id, d, any(in))
 		})
@@ -1145,26 +1170,26 @@ func (s *session) buildStep(id string) schema.CallableStep {
 		}
 	}
 	if mapSteps[id] {
-		sig := schema.NewCallableSignal[*sdata, map[string]any](sigID, mapSigScope(), nil,
+		sig := schema.NewCallableSignal[*sdata, map[string]any](sigID, mapSigScope(), s.disp(id),
 			func(ctx context.Context, d *sdata, in map[string]any) { s.mapSignalHandler(ctx, id, d, in) })
 		return schema.NewCallableStepWithSignals[*sdata, map[string]any](id, mapInScope(), mapOutputs(),
-			map[string]schema.CallableSignal{sigID: sig}, nil, nil,
+			map[string]schema.CallableSignal{sigID: sig}, nil, s.disp(id),
 			func() *sdata { return s.initializer(id) },
 			func(ctx context.Context, d *sdata, in map[string]any) (string, any) {
 				return s.mapStepHandler(ctx, id, d, in)
 			})
 	}
 	if noInit[id] {
-		sig := schema.NewCallableSignal[any, sigIn](sigID, sigScope(), nil,
+		sig := schema.NewCallableSignal[any, sigIn](sigID, sigScope(), s.disp(id),
 			func(ctx context.Context, d any, in sigIn) { s.signalHandler(ctx, id, d, in) })
 		return schema.NewCallableStepWithSignals[any, stepIn](id, inScope(), outputs(),
-			map[string]schema.CallableSignal{sigID: sig}, nil, nil, nil,
+			map[string]schema.CallableSignal{sigID: sig}, nil, s.disp(id), nil,
 			func(ctx context.Context, d any, in stepIn) (string, any) { return s.stepHandler(ctx, id, d, in) })
 	}
-	sig := schema.NewCallableSignal[*sdata, sigIn](sigID, sigScope(), nil,
+	sig := schema.NewCallableSignal[*sdata, sigIn](sigID, sigScope(), s.disp(id),
 		func(ctx context.Context, d *sdata, in sigIn) { s.signalHandler(ctx, id, d, in) })
 	return schema.NewCallableStepWithSignals[*sdata, stepIn](id, inScope(), outputs(),
-		map[string]schema.CallableSignal{sigID: sig}, nil, nil,
+		map[string]schema.CallableSignal{sigID: sig}, nil, s.disp(id),
 		func() *sdata { return s.initializer(id) },
 		func(ctx context.Context, d *sdata, in stepIn) (string, any) { return s.stepHandler(ctx, id, d, in) })
 }
@@ -1574,6 +1599,9 @@ func judge(s *session, r *resT) int {
 	}
 	det := func(p *proc, more map[string]any) map[string]any {
 		d := map[string]any{"p": p.id, "call": p.call, "variant": p.variant, "form": p.form}
+		if len(s.display) > 0 {
+			d["display"] = s.display
+		}
 		if mapSteps[p.call.Step] || shortSteps[p.call.Step] {
 			d["raw"] = fmt.Sprintf("%#v", func() any { r, _ := rawFor(p); return r }())
 		}
@@ -1808,7 +1836,13 @@ func runReplay(c caseT, r *resT) {
 	for _, h := range c.Hist {
 		variant = variant*3 + h.P
 	}
-	s := newSession(c.Calls, true, 1, variant%12, c.Variants)
+	for id, sh := range c.Display {
+		if !contains(displayShapes, sh) || !contains(stepIDs, id) {
+			r.BindError = "display shape " + sh + " of step " + id + " is not in the harness's table"
+			return
+		}
+	}
+	s := newSession(c.Calls, true, 1, variant%12, c.Variants, c.Display)
 	for _, p := range s.procs {
 		go s.runCall(p)
 	}
@@ -2106,7 +2140,13 @@ func runRandom(c caseT, r *resT) {
 				calls[i].Beh = b + "r" // the same output ID class with data class confr
 			}
 		}
-		s := newSession(calls, false, c.Seed*100003+int64(k), rng.Intn(1<<16), nil)
+		display := map[string]any{}
+		dmap := map[string]string{}
+		for _, id := range stepIDs {
+			dmap[id] = displayShapes[rng.Intn(len(displayShapes))]
+			display[id] = dmap[id]
+		}
+		s := newSession(calls, false, c.Seed*100003+int64(k), rng.Intn(1<<16), nil, dmap)
 		for _, p := range s.procs {
 			go s.runCall(p)
 		}
@@ -2136,7 +2176,7 @@ func runRandom(c caseT, r *resT) {
 			continue
 		}
 		r.Clean++
-		r.Trace = append(r.Trace, map[string]any{"ev": "reset", "calls": calls})
+		r.Trace = append(r.Trace, map[string]any{"ev": "reset", "calls": calls, "display": display})
 		r.Trace = append(r.Trace, logLines(s.log)...)
 		for _, cl := range calls {
 			k := cl.Kind + "/" + situation(cl) + "/" + cl.Beh
@@ -2145,6 +2185,11 @@ func runRandom(c caseT, r *resT) {
 			}
 			if shortSteps[cl.Step] {
 				k += "/single:" + cl.Input
+			}
+			if sit := situation(cl); sit == "unknown_step" || sit == "unknown_signal" {
+				for _, id := range stepIDs {
+					keys[k+"/display:"+dmap[id]] = true
+				}
 			}
 			keys[k] = true
 		}
